@@ -14,6 +14,10 @@ fn digest<I: Iterator<Item = u64>>(it: I) -> u64 {
 /// lcd_rs ops...  (w:<addr>:<v> | r:<addr> | st | px)
 pub fn run(w: &[&str]) -> String {
     let mut lcd = LcdController::new();
+    if w.len() % 2 == 1 {
+        // every other case starts from a controller that was reset() once: a reset of a fresh controller changes nothing
+        lcd.reset();
+    }
     let mut out: Vec<String> = Vec::new();
     for op in w {
         let p: Vec<&str> = op.split(':').collect();
